@@ -28,6 +28,8 @@ CONSTANTS
   TrampFlushed = TRUE
   Regen = FALSE
   SavedFrom = "install"
+  RestoreMayFail = FALSE
+  LockByHand = FALSE
   ForeignReuse = FALSE
   AllocAt = "hint"
   MaxLives = 1
